@@ -182,3 +182,33 @@ class load_network_from_json_file:
 
     def ensures(result, doc):
         return {'same as loading the document': eq(result, ld.load_network(doc))}
+
+
+# ---- a missing value field is never filled in silently (C19)
+
+FIELDS = {'resistor': {'R': 'real'}, 'conductor': {'G': 'real'}, 'impedance': {'Z': 'cplx'}, 'admittance': {'Y': 'cplx'},
+          'linear_current_source': {'I': 'cplx', 'Y': 'cplx'}, 'current_source': {'I': 'cplx'}, 'real_current_source': {'I': 'real'},
+          'linear_voltage_source': {'V': 'cplx', 'Z': 'cplx'}, 'voltage_source': {'V': 'cplx'}, 'real_voltage_source': {'V': 'real'}}
+
+
+def missing_field(kind, fields, missing):
+    @contract('CircuitCalculator.Network.loaders.load_network', props=['C19', 'C17'], name='load_network_missing_' + kind + '_' + missing,
+              bounded='one entry of kind ' + kind + ' without its ' + missing + ' field (plus a grounded resistor)')
+    class _c:
+        total = True
+
+        def inputs(g):
+            e = {'N1': 'a', 'N2': '0', 'id': 'X1', 'type': kind}
+            for k, t in fields.items():
+                if k != missing:
+                    e[k] = g.real(k) if t == 'real' else value_dict(g, k, g.bool(k + '_polar'))
+            return dict(network_dict=[{'N1': 'a', 'N2': '0', 'id': 'R0', 'type': 'resistor', 'R': g.real('R0')}, e])
+
+        def ensures(result, network_dict):
+            return {'rejected, not completed with a default': raised(result)}
+    return _c
+
+
+for _kind, _fields in FIELDS.items():
+    for _missing in _fields:
+        missing_field(_kind, _fields, _missing)
